@@ -327,9 +327,23 @@ func (tr *fnTrans) unop(x *ssa.UnOp) {
 				tr.nilCheck(x.X, x.Pos(), "load")
 			}
 		}
-		t := tr.load(tr.cur, tr.locOf(x.X))
+		l := tr.locOf(x.X)
+		t := tr.load(tr.cur, l)
 		tr.setVal(x, t)
 		tr.wf(t, x.Type())
+		// a reference read from a cell that existed at entry and still holds its entry content was itself
+		// allocated before entry
+		if (l.kind == locField || l.kind == locCell) && (t.Sort == "Ref" || t.Sort == "Slice") {
+			cs := tr.compSort[l.comp]
+			cur := tr.get(tr.cur, l.comp, cs)
+			old := q(l.comp + "@0")
+			ref := t.S
+			if t.Sort == "Slice" {
+				ref = app("s_arr", t.S)
+			}
+			tr.assume(imp(and(app("<", app("allocT", l.base), tr.clock(tr.entry)), app("=", app("select", cur, l.base), app("select", old, l.base))),
+				app("<", app("allocT", ref), tr.clock(tr.entry))))
+		}
 	case token.NOT:
 		tr.setVal(x, Term{not(tr.val(x.X).S), "Bool", x.Type()})
 	case token.SUB:
@@ -593,10 +607,12 @@ func (tr *fnTrans) next(x *ssa.Next) {
 	if x.IsString {
 		s := tr.val(rng.X)
 		k := Term{tr.c.freshConst(x.Name()+"_k", "Int"), "Int", types.Typ[types.Int]}
-		r := Term{tr.c.freshConst(x.Name()+"_r", "Int"), "Int", types.Typ[types.Rune]}
-		tr.assume(imp(okc.S, and(app("<=", "0", k.S), app("<", k.S, app("slen", s.S)), app("<=", "0", r.S), app("<=", r.S, "1114111"))))
-		pos := c.declFun("iterpos", []Sort{"Str", "Int"}, "Bool")
-		tr.assume(imp(okc.S, app(pos, s.S, k.S)))
+		runeAt := c.declFun("runeAt", []Sort{"Str", "Int"}, "Int")
+		rsizeAt := c.declFun("rsizeAt", []Sort{"Str", "Int"}, "Int")
+		r := Term{app(runeAt, s.S, k.S), "Int", types.Typ[types.Rune]}
+		sz := app(rsizeAt, s.S, k.S)
+		tr.assume(imp(okc.S, and(app("<=", "0", k.S), app("<", k.S, app("slen", s.S)), app("<=", "0", r.S), app("<=", r.S, "1114111"),
+			app("<=", "1", sz), app("<=", sz, "4"), app("<=", "(+ "+k.S+" "+sz+")", app("slen", s.S)))))
 		tr.tuples[x] = []Term{okc, k, r}
 		return
 	}
